@@ -112,6 +112,41 @@ theorem counterexample : ¬ full_statement := by
     normSqProj, normSqProjOf, pace, Finset.sum_range_succ] at this
   norm_num at this
 
+/-- The matrix `cholesky_matrix.T @ cholesky_matrix` is symmetric and positive
+semi-definite whatever the captured factor is: `xᵀ(UᵀU)x = ‖Ux‖² ≥ 0` (so the product-space
+form used above is a genuine semi-inner product). -/
+theorem gram_of_factor_psd (M : ℕ) (U : ℕ → ℕ → ℚ) (x : ℕ → ℚ) :
+    bil M (gramOfFactor M U) x x = dot M (mulVec M U x) (mulVec M U x) ∧
+      0 ≤ bil M (gramOfFactor M U) x x := by
+  have adj : ∀ y : ℕ → ℚ, dot M x (mulVec M (tr U) y) = dot M (mulVec M U x) y := by
+    intro y
+    unfold dot mulVec tr
+    simp_rw [Finset.mul_sum, Finset.sum_mul]
+    rw [Finset.sum_comm]
+    apply Finset.sum_congr rfl; intro k _
+    apply Finset.sum_congr rfl; intro i _
+    ring
+  have h : bil M (gramOfFactor M U) x x = dot M (mulVec M U x) (mulVec M U x) := by
+    unfold bil gramOfFactor
+    rw [dot_congr_right _ (fun i _ => mulVec_matMul M (tr U) U x i), adj]
+  refine ⟨h, ?_⟩
+  rw [h]
+  unfold dot
+  exact Finset.sum_nonneg (fun i _ => mul_self_nonneg _)
+
+/-- The normalisation divisor is a sum of squares: `‖ξ c_m‖²/(N−1) ≥ 0` for `N ≥ 2`, and it
+equals `c_mᵀ Q̃ c_m` with `Q̃` the UNcentred second moment (what the code uses for the
+eigenfunction weights — the covariance `Q` only when the scores are centred). -/
+theorem normSqProj_spec (M N : ℕ) (hN : 2 ≤ N) (ξ c : ℕ → ℕ → ℚ) (m : ℕ) :
+    0 ≤ normSqProj M N ξ c m ∧
+      normSqProj M N ξ c m = bil M (secondMoment N ξ) (col c m) (col c m) := by
+  refine ⟨?_, normSqProj_eq_bil M N ξ c m⟩
+  unfold normSqProj normSqProjOf
+  apply div_nonneg
+  · exact Finset.sum_nonneg (fun i _ => mul_self_nonneg _)
+  · have : (2 : ℚ) ≤ N := by exact_mod_cast hN
+    linarith
+
 /-! ## Block assembly -/
 
 /-- **Block assembly**: entry `(a, b)` of block `p` is found at row `rowOff p + a`, column
